@@ -472,19 +472,16 @@ def merge_projections(arr):
     if len(arr) == 1 or not has_none(arr[0]):
         return arr[0]
     sparse_fa = list(arr[0])
-    i = 0
-    k = 1
-    while i < len(sparse_fa) and k < len(arr):
-        fa = arr[k]
+    # every later argument list fills the holes that are still open, left to right;
+    # an omitted argument in it leaves that hole open for the next step
+    for fa in arr[1:]:
         j = 0
-        while i < len(sparse_fa) and j < len(fa):
+        for i in range(len(sparse_fa)):
+            if j >= len(fa):
+                break
             if sparse_fa[i] is None:
                 sparse_fa[i] = fa[j]
                 j += 1
-                while j < len(fa) and safe_eq(fa[j], None):
-                    j += 1
-            i += 1
-        k += 1
     return sparse_fa
 
 
